@@ -365,6 +365,18 @@ def g_lines(ctx, rng, i):
             L.append(_try(g.Line, P, g.Point(_on_line(q, r, t))))
         if all(x is not None for x in L):
             _try(g.crossratio, *L)
+            # not a pencil: the fourth line (i) lies in the plane of the pencil but misses the vertex, (ii) passes through the vertex but
+            # leaves the plane, (iii) is a random line of space
+            other = [g.Point(_on_line(q, r, t)) for t in (ts[0], ts[1])]
+            s = gen.nonzero_vec(rng, 4, 3)
+            bad = [_try(g.Line, other[0], other[1])]
+            if X.rank([X.vec(p), X.vec(q), X.vec(r), X.vec(s)]) == 4:
+                bad.append(_try(g.Line, P, g.Point(s)))
+                bad.append(_try(g.Line, g.Point(s), g.Point(_on_line(q, r, ts[2]))))
+            for m in bad:
+                if m is not None:
+                    _try(g.crossratio, L[0], L[1], L[2], m)
+                    _try(g.crossratio, L[0], m, L[1], L[2])
 
 
 GROUPS = [
